@@ -30,7 +30,7 @@ def slice_def(u, name, tier):
         f0, f = exportlib.free_alphabet(calls)
         return dict(calls=calls, follow0=f0, follow=f, maxlen=3 if q else 5, init="empty", strict=True, confl="C05")
     if name == "nasty":               # declarations whose text stresses the textual merge
-        calls = [u.call("export", t, "default") for t in ["Alpha", "Gamma", "Delta", "Zeta", "AlphaBeta", "Beta"]]
+        calls = [u.call("export", t, "default") for t in ["Alpha", "Gamma", "Delta", "Zeta", "Eta", "AlphaBeta", "Beta"]]
         f0, f = exportlib.free_alphabet(calls)
         return dict(calls=calls, follow0=f0, follow=f, maxlen=3 if q else 4, init="empty", strict=True, confl="C05")
     if name == "hist":                # C06: entry points x spellings x order
@@ -163,7 +163,7 @@ def run_slice(name, tier, stats):
     u = exportlib.Universe()
     try:
         sd = slice_def(u, name, tier)
-        const = os.path.join(vlib.BUILD, "export-const-%s-%d.json" % (name, os.getpid()))
+        const = os.path.join(vlib.TMP, "export-const-%s-%d.json" % (name, os.getpid()))
         u.write_constants(const, sd["calls"], sd["follow0"], sd["follow"], sd["init"])
         d = json.load(open(const))
         d["maxlen"] = sd["maxlen"]
@@ -215,7 +215,7 @@ def run_slice(name, tier, stats):
         # ADJUDICATE (pass 2): confluence over histories without other failures
         good = sorted([r_ for r_ in results if not r_["bad"]], key=lambda r_: (r_["key"], r_["sha"]))
         if good:
-            cpath = os.path.join(vlib.BUILD, "confl-%s.ndjson" % name)
+            cpath = os.path.join(vlib.TMP, "confl-%s.ndjson" % name)
             vlib.write_ndjson(cpath, [{"key": g["key"], "sha": g["sha"], "hid": g["hid"]} for g in good])
             a = vlib.run_tlc("Trace_Confluence", "Trace_Confluence.cfg", workers=8, timeout=1200,
                              env={"VERIF_TRACE": cpath}, tags=("BAD",), metatag="tc-" + name)
